@@ -109,6 +109,34 @@ Proof.
 Qed.
 Print Assumptions C11_restart_only_newest_after_t_failures.
 
+(* ... and that eon IS the newest one: every DKG instance carries an eon number at most the
+   counter, so "not older than the counter" means "equal to it" - for every state reached from
+   a genesis by a call sequence short enough that the 64-bit counter cannot have wrapped. *)
+Theorem C11_restart_is_for_newest_eon : forall g s0 cs es e sender succ eon s' code evs,
+  init_chain g = Some s0 ->
+  (Z.of_N (g_initial_eon g) + Z.of_nat (List.length cs) < Z.of_N max_eon)%Z ->
+  let s := fst (run_enums es 0 s0 cs) in
+  deliver_dkg_result e s sender succ eon = Some (s', (code, evs)) -> evs <> [] ->
+  eon = eon_counter s.
+Proof.
+  intros g s0 cs es e sender succ eon s' code evs Hi Hb s Hd Hev.
+  assert (Hc0 : eon_counter s0 = g_initial_eon g).
+  { revert Hi. unfold init_chain. destruct (negb (ensure_valid _)); [discriminate|].
+    destruct (negb (forallb _ _)); [discriminate|]. intros [= <-]. reflexivity. }
+  assert (Hinv : eon_inv s).
+  { apply run_eon_inv; [eapply init_chain_eon_inv; eauto|]. rewrite Hc0. exact Hb. }
+  revert Hd. unfold deliver_dkg_result.
+  destruct (dkg_get (dkgs s) eon) as [d|] eqn:Eg; [|intros [= <- <- <-]; congruence].
+  pose proof (Hinv eon d Eg) as Hle.
+  destruct (negb (is_keyper (d_config d) sender)); [intros [= <- <- <-]; congruence|].
+  destruct (add_vote Bool.eqb (d_success d) sender succ); [|intros [= <- <- <-]; congruence].
+  destruct (outcome e _ _) as [[w|]|]; try discriminate; [|intros [= <- <- <-]; congruence].
+  destruct w; simpl; [intros [= <- <- <-]; congruence|].
+  destruct (eon <? eon_counter _)%N eqn:Eout; [intros [= <- <- <-]; congruence|].
+  simpl in Eout. apply N.ltb_ge in Eout. intros _. apply N.le_antisymm; assumption.
+Qed.
+Print Assumptions C11_restart_is_for_newest_eon.
+
 (* A config is marked started only if at least threshold(previous config) members of the
    previous config (the config itself for the first one) reported a block at or past its
    activation block. *)
